@@ -178,8 +178,12 @@ def get_arg_defaults(task: "Task", args: tuple, kwargs: dict) -> dict:
 
     sig = task.signature
     for i, param in enumerate(sig.parameters.values()):
-        if i < len(args):
-            # User already specified this arg in args.
+        if (
+            param.kind in (param.POSITIONAL_ONLY, param.POSITIONAL_OR_KEYWORD)
+            and i < len(args)
+        ):
+            # User already specified this arg in args. Parameters after `*args` never bind
+            # to positional arguments.
             continue
 
         elif param.name in kwargs:
